@@ -18,6 +18,10 @@ def first_match(items, comp):
     return None
 
 
+import re as _re
+_BASIC_KEY = _re.compile(r"[a-zA-Z][-._a-zA-Z0-9]*")
+
+
 def edit(elab, items, specs):
     """the hand edit of the property statement on the item tree; returns new tree or None (= must be rejected)"""
     items = copy.deepcopy(items)
@@ -27,6 +31,11 @@ def edit(elab, items, specs):
         path = opt.split("/")
         cur, tyname = items, None
         for comp in path[:-1]:
+            if not _BASIC_KEY.fullmatch(comp):
+                # the option syntax addresses sections by basic-key words only (cmdline.basic_key on every path component):
+                # a section whose name is not of that shape cannot be addressed; such a specifier is refused (model:
+                # C14_nonident_component_rejected), it is not an edit
+                return None
             s = first_match(cur, comp)
             if s is None:
                 return None
@@ -92,7 +101,7 @@ def run(ctx):
             continue      # C07
         if b.lines is None:
             if a.out[0] == "ok":
-                ctx.violate("override addressing a section that is not in the text was accepted: %r" % (a.overrides,),
+                ctx.violate("override addressing a section that is not in the text (or not addressable: a path component that is no basic-key word) was accepted: %r" % (a.overrides,),
                             a.replay(), signature="C14:missing-section-accepted")
             continue
         if b.out[0] == "internal":
